@@ -192,6 +192,10 @@ def eval_lexer_family(name):
     return {"name": name, "status": status, "rows": rows, "why": why}
 
 
+def _origin_work(task):
+    return [origin_functions(kind, key, sizes3) for kind, key, sizes3 in task]
+
+
 def _lex_work(names):
     return [eval_lexer_family(n) for n in names]
 
@@ -325,23 +329,32 @@ def run(tier):
     if not _self_test():
         R.fail("oracle-self-test", {}, "the marginal-cost comparison does not separate affine from quadratic")
 
-    # phase 1: every construct alone; phase 2: the pairs (a pair containing a
-    # construct that is super-linear on its own is attributed to it, so the
-    # origin analysis is not repeated for it)
+    # every construct alone and every pair in one ordered parallel map; the
+    # origin analysis of a bad pair is done afterwards, and only when neither
+    # of its constructs is super-linear on its own (such a pair is attributed
+    # to that construct)
     import time
 
     t_ph = [time.time()]
+    tasks = [[f] for f in fams] + core.chunked([p[:4] + (False,) for p in pairs], 8)
     results = []
-    for part in core.pmap(_work, [[f] for f in fams], chunksize=1):
+    for part in core.pmap(_work, tasks, chunksize=1):
         results.extend(part)
     t_ph.append(time.time())
     single_sig = {}
     for r in results:
         if r["kind"] == "nest" and r["status"] == "superlinear":
             single_sig[r["key"]] = signature(r, {})
-    pairs = [p[:4] + (not (p[1][0] in single_sig or p[1][1] in single_sig),) for p in pairs]
-    for part in core.pmap(_work, core.chunked(pairs, 8), chunksize=1):
-        results.extend(part)
+    need = [i for i, r in enumerate(results)
+            if r["kind"] == "pair" and r["status"] == "superlinear"
+            and not (r["key"][0] in single_sig or r["key"][1] in single_sig)]
+    todo = [(results[i]["kind"], results[i]["key"],
+             results[i]["sizes"][results[i]["window"]:results[i]["window"] + 3]) for i in need]
+    got = []
+    for part in core.pmap(_origin_work, core.chunked(todo, 8), chunksize=1):
+        got.extend(part)
+    for i, o in zip(need, got):
+        results[i]["origin"] = o
     t_ph.append(time.time())
 
     lex_names = list(F.LEXER_FAMILIES)
@@ -450,7 +463,7 @@ def run(tier):
     R.set("productions_reached", len([f for f in funcs if f.startswith("_parse_")]))
     R.set("functions_reached", len(funcs))
     R.set("bounds", bounds)
-    R.set("phase_seconds", dict(zip(("singles", "pairs", "lexer"),
+    R.set("phase_seconds", dict(zip(("families", "origin_analysis", "lexer"),
                                     (round(b - a, 1) for a, b in zip(t_ph, t_ph[1:])))))
     R.assumptions += [
         "work = number of Python call events inside c_parser.py, c_lexer.py and ast_transforms.py "
